@@ -49,7 +49,7 @@ ASSUMPTIONS = [
     'cubes and convolved fluxes without apertures read back without them',
 ]
 EXHAUSTIVE = {'quick': True, 'thorough': True}   # the discrete product (kind x direction x order x parts x unit x memmap)
-N_RANDOM = {'quick': 300, 'thorough': 6000}
+N_RANDOM = {'quick': 300, 'thorough': 24000}
 
 
 def _unit(name):
